@@ -3,6 +3,8 @@ package limit_test
 import (
 	"context"
 	"fmt"
+	"runtime"
+	"sort"
 	"sync"
 	"testing"
 	"time"
@@ -19,10 +21,11 @@ type c08TLim struct {
 	Rate  int `json:"rate"`
 	Burst int `json:"burst"`
 	Share int `json:"share,omitempty"` // 0: a key of its own; s>0: the limiters with the same s use ONE key (config reload, mixed deployment)
+	Key   int `json:"key,omitempty"`   // index into c08KeyAlphabet (a share group uses the entry of its first member)
 }
 
 type c08TOp struct {
-	K string `json:"k"`           // allow | callow | mallow | adv | outage | recover | cancel
+	K string `json:"k"`           // allow | noise (C failing foreign commands, then 11 s) | callow (C identical concurrent) | rallow (C identical in a row) | mallow | adv | outage | recover | cancel
 	L int    `json:"l,omitempty"` // limiter index
 	N int    `json:"n,omitempty"` // tokens requested
 	C int    `json:"c,omitempty"` // callow: concurrent callers, each requesting N
@@ -203,6 +206,7 @@ type c08Rescue struct {
 	init        bool
 	level       int64
 	last        int64
+	slack       int64 // millitokens the real limiter may be ahead since it was last full (see advance)
 }
 
 func (r *c08Rescue) advance(nowMs int64) {
@@ -211,9 +215,18 @@ func (r *c08Rescue) advance(nowMs int64) {
 		return
 	}
 	if nowMs > r.last {
-		r.level += r.rate * (nowMs - r.last)
-		if r.level > r.burst*1000 {
-			r.level = r.burst * 1000
+		d := nowMs - r.last
+		if d > r.burst*1000/r.rate+1 { // enough to fill it from empty (and no overflow below)
+			r.level, r.slack = r.burst*1000, 0
+		} else {
+			add := r.rate * d
+			r.level += add
+			// golang.org/x/time/rate is given the interval 1s/rate rounded DOWN to whole
+			// nanoseconds: it refills faster than `rate` by a relative rate/1e9 at most
+			r.slack += add*r.rate/1e9 + 1
+			if r.level >= r.burst*1000 {
+				r.level, r.slack = r.burst*1000, 0
+			}
 		}
 		r.last = nowMs
 	}
@@ -225,7 +238,7 @@ func (r *c08Rescue) decide(nowMs, n int64) int {
 	switch need := n * 1000; {
 	case r.level >= need:
 		return 1
-	case r.level < need-c08Tol:
+	case r.level < need-c08Tol-r.slack:
 		return -1
 	}
 	return 0
@@ -290,13 +303,29 @@ func c08TokenInterp(t *testing.T, c c08TCase, rule int) (v kit.Verdict) {
 		for _, l := range c.Lims {
 			sharedKey[l.Share]++
 		}
+		groupAlpha := map[int]int{}
 		for i, l := range c.Lims {
-			keys[i] = fmt.Sprintf("c08t%d_%d", c08Seq, i)
+			alpha := l.Key % len(c08KeyAlphabet)
+			// the caller's key first, the harness' disambiguation (case, instance) last
+			keys[i] = fmt.Sprintf("%s:c08t%d_%d", c08KeyAlphabet[alpha], c08Seq, i)
 			if l.Share > 0 {
-				keys[i] = fmt.Sprintf("c08t%d_s%d", c08Seq, l.Share)
+				if _, ok := groupAlpha[l.Share]; !ok {
+					groupAlpha[l.Share] = alpha
+				}
+				alpha = groupAlpha[l.Share]
+				keys[i] = fmt.Sprintf("%s:c08t%d_s%d", c08KeyAlphabet[alpha], c08Seq, l.Share)
 				if sharedKey[l.Share] > 1 {
 					classes["limiters-sharing-one-key"] = true
 				}
+			}
+			if alpha >= 2 {
+				classes["key-outside-[a-z0-9]"] = true
+			}
+			if l.Rate >= 1000 {
+				classes["rate>=1000"] = true
+			}
+			if l.Burst >= 65535 {
+				classes["burst>=65535"] = true
 			}
 			lims[i] = limit.NewTokenLimiter(l.Rate, l.Burst, store, keys[i])
 			rescB[i] = &c08Rescue{rate: int64(l.Rate), burst: int64(l.Burst)}
@@ -306,6 +335,7 @@ func c08TokenInterp(t *testing.T, c c08TCase, rule int) (v kit.Verdict) {
 		outages := 0
 		serverOnly := false
 		blackhole := false // the current outage accepts connections and never answers
+		noised := false    // other users of the shared store had a run of failing commands, > 10 s ago
 
 		// Redis side: sequential model; identical requests => the number of grants is order-independent
 		judgeRedis := func(what string, l int, sec, n int64, callers, granted int) bool {
@@ -394,6 +424,18 @@ func c08TokenInterp(t *testing.T, c c08TCase, rule int) (v kit.Verdict) {
 				x = 0
 			}
 			deadBefore := ctx.Err() != nil
+			if n == 0 {
+				classes["n=0"] = true
+			}
+			if n >= 1<<31-1 {
+				classes["n>=2^31-1"] = true
+			}
+			if sec >= 1<<31 {
+				classes["caller-second>=2^31"] = true
+			}
+			if sec >= 1<<32 {
+				classes["caller-second>=2^32"] = true
+			}
 			if (variant == "now" || variant == "nowctx") && (n != 1 || !time.Now().Equal(now)) {
 				variant = "" // Allow()/AllowCtx() read time.Now(): only meaningful while the bubble clock is the caller clock
 			}
@@ -477,9 +519,11 @@ func c08TokenInterp(t *testing.T, c c08TCase, rule int) (v kit.Verdict) {
 				classes["restart-call-on-fallback-while-redis-up"] = true
 				return judgeRescue(what, l, n, 1, granted)
 			default:
-				if outages > 0 {
+				if outages > 0 || noised {
 					// "returns to Redis once it answers again": after recovery and the
 					// settling time every decision must have been taken by the script
+					// (same after foreign failures on the shared store that lie more than
+					// the wrapper's 10 s breaker window back)
 					if evals != callers {
 						fail = fmt.Sprintf("%s: Redis answers again (recovered, settled) but only %d of %d requests reached the server's script; the limiter is still on its in-process bucket",
 							what, evals, callers)
@@ -511,6 +555,57 @@ func c08TokenInterp(t *testing.T, c c08TCase, rule int) (v kit.Verdict) {
 			case "callow":
 				if !request(what, o.L, int64(o.N), o.C, "", 0) {
 					break ops
+				}
+			case "noise":
+				// The *redis.Redis is shared with other code: a run of commands that fail
+				// (HGET on a string key: WRONGTYPE) trips the wrapper's breaker. Its window
+				// is 10 s; 11 s later Redis is healthy and nothing may be left of it.
+				if rule != c08RuleToken || down {
+					continue
+				}
+				nk := fmt.Sprintf("c08noise%d", c08Seq)
+				_ = store.Set(nk, "1")
+				for r := 0; r < o.C; r++ {
+					_, _ = store.HGet(nk, "f")
+				}
+				coupled(11000)
+				noised = true
+				classes["foreign-failures-on-shared-store-then-11s-quiet"] = true
+			case "rallow":
+				// one instance through many requests in a row (same instant, same n)
+				classes["many-requests-in-a-row"] = true
+				if down && firstInOutage[o.L] && !blackhole {
+					// the limiter is on its in-process bucket: no network, up to 10^5 calls
+					t0 := srv.realNow()
+					granted, sorted := 0, true
+					for r := 0; r < o.C; r++ {
+						if lims[o.L].AllowN(base.Add(time.Duration(callerMs)*time.Millisecond), o.N) {
+							if granted != r {
+								sorted = false
+							}
+							granted++
+						}
+					}
+					if srv.realNow().Sub(t0) > 10*c08Stall {
+						stalled = true
+						break ops
+					}
+					if !sorted {
+						fail = fmt.Sprintf("%s: %d identical requests at one instant: a request was granted after an identical one had been denied", what, o.C)
+						break ops
+					}
+					if o.C >= 65536 {
+						classes["in-process-bucket>=65536-calls-in-one-outage"] = true
+					}
+					if !judgeRescue(what, o.L, int64(o.N), o.C, granted) {
+						break ops
+					}
+					continue
+				}
+				for r := 0; r < o.C; r++ {
+					if !request(fmt.Sprintf("%s (request %d)", what, r), o.L, int64(o.N), 1, "", 0) {
+						break ops
+					}
 				}
 			case "mallow":
 				// different requests inside AllowN of ONE limiter at the same instant,
@@ -587,6 +682,8 @@ func c08TokenInterp(t *testing.T, c c08TCase, rule int) (v kit.Verdict) {
 						srv.setMode(c08Loading)
 					case "err":
 						srv.setMode(c08Err)
+					case "badreply":
+						srv.setMode(c08BadReply)
 					case "blackhole":
 						srv.setMode(c08Blackhole)
 						blackhole = true
@@ -740,8 +837,21 @@ func c08GenLims(rt *rapid.T, max int, share bool) []c08TLim {
 	}
 	for i := range out {
 		r := rapid.IntRange(1, 20).Draw(rt, "rate")
-		b := rapid.IntRange((r+1)/2, 24).Draw(rt, "burst") // 2*burst >= rate: the script's TTL is positive
-		out[i] = c08TLim{Rate: r, Burst: b}
+		if rapid.IntRange(0, 3).Draw(rt, "big-rate") == 0 {
+			r = rapid.SampledFrom([]int{100, 1000, 3000, 65536, 999999, 1000000}).Draw(rt, "rate-l")
+		}
+		lo := (r + 1) / 2 // 2*burst >= rate: the script's TTL is positive
+		hi := 24
+		if lo > hi {
+			hi = lo + 24
+		}
+		b := rapid.IntRange(lo, hi).Draw(rt, "burst")
+		if rapid.IntRange(0, 5).Draw(rt, "big-burst") == 0 {
+			if bb := rapid.SampledFrom([]int{127, 128, 255, 256, 32767, 32768, 65535, 65536, 1000000, 1<<31 - 1}).Draw(rt, "burst-l"); bb >= lo {
+				b = bb
+			}
+		}
+		out[i] = c08TLim{Rate: r, Burst: b, Key: c08DrawKeyAlpha(rt)}
 		if groups > 0 {
 			out[i].Share = rapid.IntRange(1, groups).Draw(rt, "share")
 		}
@@ -749,16 +859,22 @@ func c08GenLims(rt *rapid.T, max int, share bool) []c08TLim {
 	return out
 }
 
+// c08DrawKeyAlpha: the two very long keys (equal in their first 70 000 bytes) three times as likely as the others.
+func c08DrawKeyAlpha(rt *rapid.T) int {
+	k := rapid.IntRange(0, len(c08KeyAlphabet)+3).Draw(rt, "key-alpha")
+	if k >= len(c08KeyAlphabet) {
+		k = 13 + k%2
+	}
+	return k
+}
+
 // c08PickN aims requests at the boundary of what is available.
 func c08PickN(rt *rapid.T, avail, burst int64) int {
 	cands := []int64{avail - 1, avail, avail, avail + 1, 1, 1, 2, burst, burst + 1, burst + 2,
-		int64(rapid.IntRange(1, int(burst)+2).Draw(rt, "n-any"))}
+		int64(rapid.IntRange(1, int(burst)+2).Draw(rt, "n-any")), 0, 1<<31 - 1, 1 << 31}
 	n := cands[rapid.IntRange(0, len(cands)-1).Draw(rt, "n-pick")]
-	if n < 1 {
-		n = 1
-	}
-	if n > burst+2 {
-		n = burst + 2
+	if n < 0 {
+		n = 0
 	}
 	return int(n)
 }
@@ -780,11 +896,39 @@ func c08TokenGen(rt *rapid.T) c08TCase {
 		return cur
 	}
 	var callerMs, serverMs int64
+	rallows := 0
 	decoupled := false // a caller-only step happened: the bubble clock is no longer the caller clock
 	n := rapid.IntRange(1, 60).Draw(rt, "nops")
+	rallowAt := -1 // one case in 25 sends one instance through 300..1200 requests in a row
+	if rapid.IntRange(0, 24).Draw(rt, "long-lived") == 0 {
+		rallowAt = rapid.IntRange(0, n-1).Draw(rt, "long-lived-at")
+	}
+	noiseAt := -1 // one case in 8: foreign failures on the shared store, 11 s before the rest of the case
+	if rapid.IntRange(0, 7).Draw(rt, "noise") == 0 {
+		noiseAt = rapid.IntRange(0, n-1).Draw(rt, "noise-at")
+	}
 	for i := 0; i < n; i++ {
-		kind := rapid.SampledFrom([]string{"allow", "allow", "allow", "allow", "allow", "callow", "mallow", "adv", "adv", "adv"}).Draw(rt, "kind")
+		kinds := []string{"allow", "allow", "allow", "allow", "allow", "callow", "mallow", "adv", "adv", "adv"}
+		if rallows < 1 && i == rallowAt {
+			kinds = []string{"rallow"}
+		}
+		if i == noiseAt {
+			c.Ops = append(c.Ops, c08TOp{K: "noise", C: rapid.SampledFrom([]int{6, 50, 400}).Draw(rt, "noise")})
+			callerMs += 11000
+			serverMs += 11000
+		}
+		kind := rapid.SampledFrom(kinds).Draw(rt, "kind")
 		switch kind {
+		case "rallow":
+			l := pickLim()
+			b := model[l]
+			sec := epoch + callerMs/1000
+			o := c08TOp{K: "rallow", L: l, N: rapid.IntRange(1, 3).Draw(rt, "rn"), C: rapid.SampledFrom([]int{300, 1000, 1200}).Draw(rt, "repeat")}
+			for j := 0; j < o.C; j++ {
+				b.allow(sec, serverMs, int64(o.N))
+			}
+			rallows++
+			c.Ops = append(c.Ops, o)
 		case "mallow":
 			l := pickLim()
 			b := model[l]
@@ -830,7 +974,30 @@ func c08TokenGen(rt *rapid.T) c08TCase {
 			l := rapid.IntRange(0, len(c.Lims)-1).Draw(rt, "lim-ref")
 			b := model[l]
 			var d int64
-			switch rapid.SampledFrom([]string{"frac", "frac", "sec", "sec", "sec", "ttl", "fill", "big"}).Draw(rt, "adv-kind") {
+			advKind := rapid.SampledFrom([]string{"frac", "frac", "sec", "sec", "sec", "ttl", "fill", "big", "magnitude"}).Draw(rt, "adv-kind")
+			if advKind == "magnitude" {
+				// the caller clock jumps to where second counters change width, or far ahead
+				// (caller-only: a clock step; the case stays below 250 years after 2000)
+				const year = int64(365 * 86400 * 1000)
+				target := callerMs
+				switch rapid.SampledFrom([]string{"2^31", "2^32", "30d", "100y"}).Draw(rt, "magnitude") {
+				case "2^31":
+					target = (1<<31-epoch)*1000 + int64(rapid.SampledFrom([]int{-1500, -1000, -1, 0, 1000}).Draw(rt, "delta"))
+				case "2^32":
+					target = (1<<32-epoch)*1000 + int64(rapid.SampledFrom([]int{-1500, -1000, -1, 0, 1000}).Draw(rt, "delta"))
+				case "30d":
+					target = callerMs + 30*86400*1000
+				case "100y":
+					target = callerMs + 100*year
+				}
+				if target > callerMs && target < 250*year {
+					c.Ops = append(c.Ops, c08TOp{K: "adv", D: int(target - callerMs), M: "caller"})
+					callerMs = target
+					decoupled = true
+				}
+				continue
+			}
+			switch advKind {
 			case "frac":
 				d = int64(rapid.IntRange(1, 1999).Draw(rt, "ms"))
 			case "sec":
@@ -874,7 +1041,7 @@ func c08TokenGen(rt *rapid.T) c08TCase {
 // under a context that may already be dead ask for more than burst (see the
 // interpreter) and are charged to the same budget of 5.
 func c08OutageGen(rt *rapid.T) c08TCase {
-	return c08OutageGenModes(rt, []string{"loading", "err"}, true)
+	return c08OutageGenModes(rt, []string{"loading", "err", "badreply"}, true)
 }
 
 func c08OutageGenModes(rt *rapid.T, modes []string, concurrent bool) c08TCase {
@@ -911,6 +1078,7 @@ func c08OutageGenModes(rt *rapid.T, modes []string, concurrent bool) c08TCase {
 	}
 	down := false
 	outages := 0
+	churn := 0
 	fails := 0               // commands that may count as failures in the wrapper's breaker so far
 	seen := make([]bool, nl) // limiter already noticed the current outage
 	pending := func() int {  // limiters that will still fail one command in the current outage
@@ -935,6 +1103,15 @@ func c08OutageGenModes(rt *rapid.T, modes []string, concurrent bool) c08TCase {
 		}
 		if down {
 			kinds = append(kinds, "recover")
+			for l := range seen {
+				if seen[l] {
+					kinds = append(kinds, "refill-probe")
+					if churn < 1 {
+						kinds = append(kinds, "rallow")
+					}
+					break
+				}
+			}
 		}
 		for x := range c.Ctxs {
 			if c.Ctxs[x].Kind == "cancel" && !cancelled[x] {
@@ -947,6 +1124,56 @@ func c08OutageGenModes(rt *rapid.T, modes []string, concurrent bool) c08TCase {
 		}
 		kind := rapid.SampledFrom(kinds).Draw(rt, "kind")
 		switch kind {
+		case "refill-probe":
+			// in-process bucket: drain it, let a little time pass, ask for one token
+			// more than the refill can have produced, then for exactly what it has
+			var cand []int
+			for l := range seen {
+				if seen[l] {
+					cand = append(cand, l)
+				}
+			}
+			l := cand[rapid.IntRange(0, len(cand)-1).Draw(rt, "lim")]
+			r := resc[l]
+			r.advance(nowMs)
+			if drain := r.level / 1000; drain > 0 {
+				c.Ops = append(c.Ops, c08TOp{K: "allow", L: l, N: int(drain)})
+				r.consume(drain)
+			}
+			d := int64(rapid.SampledFrom([]int{1, 2, 10, 100, 1000, 3000}).Draw(rt, "refill-ms"))
+			if rapid.Bool().Draw(rt, "tok") {
+				d = int64(rapid.IntRange(1, 5).Draw(rt, "k"))*1000/r.rate + 1
+			}
+			c.Ops = append(c.Ops, c08TOp{K: "adv", D: int(d)})
+			nowMs += d
+			r.advance(nowMs)
+			have := r.level / 1000
+			c.Ops = append(c.Ops, c08TOp{K: "allow", L: l, N: int(have) + 1})
+			if r.decide(nowMs, have+1) >= 0 {
+				r.consume(have + 1)
+			} else if have > 0 {
+				c.Ops = append(c.Ops, c08TOp{K: "allow", L: l, N: int(have)})
+				r.consume(have)
+			}
+		case "rallow":
+			// the in-process bucket of a limiter that already noticed the outage: a long churn, monitor alive
+			var cand []int
+			for l := range seen {
+				if seen[l] {
+					cand = append(cand, l)
+				}
+			}
+			l := cand[rapid.IntRange(0, len(cand)-1).Draw(rt, "lim")]
+			o := c08TOp{K: "rallow", L: l, N: rapid.IntRange(1, 2).Draw(rt, "rn"),
+				C: rapid.SampledFrom([]int{1000, 10000, 65535, 65536, 65537, 100000}).Draw(rt, "repeat")}
+			for j := 0; j < o.C; j++ {
+				if resc[l].decide(nowMs, int64(o.N)) < 0 {
+					break
+				}
+				resc[l].consume(int64(o.N))
+			}
+			churn++
+			c.Ops = append(c.Ops, o)
 		case "allow", "callow":
 			l := rapid.IntRange(0, nl-1).Draw(rt, "lim")
 			if kind == "callow" && down && !seen[l] {
@@ -1026,6 +1253,9 @@ func c08OutageGenModes(rt *rapid.T, modes []string, concurrent bool) c08TCase {
 			}
 			if d <= 0 {
 				d = 1
+			}
+			if d > 3600000 {
+				d = 3600000
 			}
 			if down && d > 5000 {
 				d = 5000 // every 100 ms of outage costs real dial attempts of the monitor
@@ -1136,7 +1366,7 @@ func c08BlackholeGen(rt *rapid.T) c08TCase {
 
 func TestVerif_C08_token(t *testing.T) {
 	c08GetServer()
-	kit.Run(t, "C08", "token", kit.Opts{Quick: 300, Thorough: 20000}, c08TokenGen,
+	kit.Run(t, "C08", "token", kit.Opts{Quick: 220, Thorough: 10000}, c08TokenGen,
 		func(c c08TCase) kit.Verdict { return c08TokenInterp(t, c, c08RuleToken) })
 }
 
@@ -1150,4 +1380,99 @@ func TestVerif_C08_outage_blackhole(t *testing.T) {
 	c08GetServer()
 	kit.Run(t, "C08", "token-blackhole", kit.Opts{Quick: 1, Thorough: 48}, c08BlackholeGen,
 		func(c c08TCase) kit.Verdict { return c08TokenInterp(t, c, c08RuleOutage) })
+}
+
+// ---- more concurrent callers than go-redis has pooled connections ----
+//
+// No virtual time is involved (healthy Redis, one instant), and go-redis' pool
+// waits with pooled timers that must not wander between bubbles: this rule runs
+// OUTSIDE synctest. callers = pool size (10 x GOMAXPROCS, go-redis' default) +
+// Extra goroutines released from a barrier call AllowN(now, N) of one fresh
+// limiter, then Take of one fresh period limiter. Identical requests: the
+// number of grants / the multiset of codes is the sequential model's.
+
+type c08CrowdCase struct {
+	Rate   int `json:"rate"`
+	Burst  int `json:"burst"`
+	N      int `json:"n"`
+	Extra  int `json:"extra"` // callers beyond the pool size
+	Period int `json:"period"`
+	Quota  int `json:"quota"`
+}
+
+func c08CrowdInterp(c c08CrowdCase) (v kit.Verdict) {
+	srv := c08GetServer()
+	srv.reset()
+	c08Seq++
+	store := redis.New(srv.addr)
+	callers := 10*runtime.GOMAXPROCS(0) + c.Extra
+	v.Classes = []string{fmt.Sprintf("callers-beyond-pool-%d", c.Extra)}
+	run := func(f func(j int)) bool {
+		barrier := make(chan struct{})
+		var wg sync.WaitGroup
+		for j := 0; j < callers; j++ {
+			wg.Add(1)
+			go func(j int) {
+				defer wg.Done()
+				<-barrier
+				f(j)
+			}(j)
+		}
+		t0 := time.Now()
+		close(barrier)
+		wg.Wait()
+		return time.Since(t0) <= c08Stall
+	}
+	tl := limit.NewTokenLimiter(c.Rate, c.Burst, store, fmt.Sprintf("crowd:c08t%d", c08Seq))
+	got := make([]bool, callers)
+	if !run(func(j int) { got[j] = tl.AllowN(c08Epoch, c.N) }) {
+		return kit.Verdict{Excluded: true, Classes: []string{"excluded-real-time-stall"}}
+	}
+	b := c08NewBucket(c.Rate, c.Burst, nil)
+	want, granted := 0, 0
+	for j := 0; j < callers; j++ {
+		if b.allow(c08Epoch.Unix(), 0, int64(c.N)) {
+			want++
+		}
+		if got[j] {
+			granted++
+		}
+	}
+	if granted != want {
+		return v.Failf("%d concurrent AllowN(now, %d) of one limiter (rate %d burst %d), Redis healthy: %d granted, the bucket holds %d such requests",
+			callers, c.N, c.Rate, c.Burst, granted, want)
+	}
+	pl := limit.NewPeriodLimit(c.Period, c.Quota, store, fmt.Sprintf("crowd:c08p%d:", c08Seq))
+	codes := make([]int, callers)
+	errs := make([]error, callers)
+	if !run(func(j int) { codes[j], errs[j] = pl.Take("k") }) {
+		return kit.Verdict{Excluded: true, Classes: []string{"excluded-real-time-stall"}}
+	}
+	m := &c08PModel{quota: c.Quota, keys: map[int]*c08PKey{}}
+	wantCodes := make([]int, callers)
+	for j := range wantCodes {
+		wantCodes[j], _ = m.take(0, 0, int64(c.Period)*1000)
+		if errs[j] != nil {
+			return v.Failf("%d concurrent Take of one key, Redis healthy: error %v", callers, errs[j])
+		}
+	}
+	sort.Ints(codes)
+	sort.Ints(wantCodes)
+	for j := range codes {
+		if codes[j] != wantCodes[j] {
+			return v.Failf("%d concurrent Take of one key (quota %d): codes differ from the sequential multiset at rank %d: got %d want %d", callers, c.Quota, j, codes[j], wantCodes[j])
+		}
+	}
+	v.NonTrivial = want < callers && c.Quota < callers
+	return v
+}
+
+func TestVerif_C08_token_crowd(t *testing.T) {
+	c08GetServer()
+	kit.Run(t, "C08", "crowd", kit.Opts{Quick: 4, Thorough: 160}, func(rt *rapid.T) c08CrowdCase {
+		r := rapid.IntRange(1, 20).Draw(rt, "rate")
+		return c08CrowdCase{Rate: r, Burst: rapid.IntRange((r+1)/2, 300).Draw(rt, "burst"), N: rapid.IntRange(1, 2).Draw(rt, "n"),
+			Extra:  rapid.SampledFrom([]int{1, 40, 160, 500}).Draw(rt, "extra"),
+			Period: rapid.IntRange(1, 20).Draw(rt, "period"), Quota: rapid.IntRange(1, 300).Draw(rt, "quota")}
+	}, c08CrowdInterp)
 }
